@@ -73,6 +73,8 @@ impl<'a> Cx<'a> {
             (LT::F64, "<") => format!("(Rs.f64Lt {} {})", l.term, r.term),
             (LT::F64, ">") => format!("(Rs.f64Lt {} {})", r.term, l.term),
             (LT::F64, _) => return self.un(format!("f64 comparison `{}` not modelled", op)),
+            (LT::Value, "==") => format!("(Rs.Value.eq {} {})", l.term, r.term),
+            (LT::Value, "!=") => format!("(!Rs.Value.eq {} {})", l.term, r.term),
             (LT::I(_), "==") | (LT::Bool, "==") | (LT::Enum(_), "==") | (LT::Str, "==") | (LT::BV(_), "==") => {
                 format!("(decide ({} = {}))", l.term, r.term)
             }
@@ -163,6 +165,11 @@ impl<'a> Cx<'a> {
     }
 
     fn expr(&mut self, e: &Expr, want: Option<&LT>) -> R<Tx> {
+        if self.vm_mode && matches!(e, Expr::Field(_) | Expr::MethodCall(_)) {
+            if let Some((term, ty)) = vm_place(&compact(&toks(e))) {
+                return Ok(pure(term, ty));
+            }
+        }
         match e {
             Expr::Paren(p) => self.expr(&p.expr, want),
             Expr::Group(p) => self.expr(&p.expr, want),
@@ -458,6 +465,10 @@ impl<'a> Cx<'a> {
                 }
                 Ok(Tx { pre, term: format!("({})", terms.join(", ")), ty: LT::Tup(tys) })
             }
+            Expr::Unsafe(u) if u.block.stmts.len() == 1 => match &u.block.stmts[0] {
+                Stmt::Expr(inner, None) => self.expr(inner, want),
+                _ => self.un("unsafe block that is not a single expression"),
+            },
             Expr::Call(c) => self.call(c, want),
             Expr::MethodCall(m) => self.method_call(m, want),
             other => self.un(format!("expression `{}` not modelled", truncate_chars(&compact(&toks(other)), 80))),
@@ -522,6 +533,24 @@ impl<'a> Cx<'a> {
     }
 
     fn call(&mut self, c: &syn::ExprCall, want: Option<&LT>) -> R<Tx> {
+        if let Expr::Path(p) = &*c.func {
+            if p.path.segments.len() == 1 {
+                if let Some(v) = self.lookup(&p.path.segments[0].ident.to_string()) {
+                    if v.ty == LT::OpFn && c.args.len() == 2 {
+                        let a = self.expr(&c.args[0], Some(&LT::F64))?;
+                        let b = self.expr(&c.args[1], Some(&LT::F64))?;
+                        if a.ty != LT::F64 || b.ty != LT::F64 {
+                            return self.un("operator closure applied to non-numbers");
+                        }
+                        let mut pre = a.pre;
+                        pre.extend(b.pre);
+                        let r = self.fresh("t");
+                        pre.push(Pre::Bind(r.clone(), format!("({} {} {})", v.lean, a.term, b.term)));
+                        return Ok(Tx { pre, term: r, ty: LT::Value });
+                    }
+                }
+            }
+        }
         let fname = match &*c.func {
             Expr::Path(p) => path_segments(&p.path).join("::"),
             other => return self.un(format!("call of `{}` not modelled", toks(other))),
@@ -617,8 +646,38 @@ impl<'a> Cx<'a> {
         if args.is_empty() && matches!(name.as_str(), "borrow" | "borrow_mut" | "as_ref" | "as_mut" | "get" | "clone") {
             return self.expr(&m.receiver, want);
         }
+        if self.vm_mode && self.path_of(&m.receiver).as_deref() == Some("self") {
+            if let Some(tx) = self.vm_intrinsic(&name, &args)? {
+                return Ok(tx);
+            }
+        }
         let recv = self.expr(&m.receiver, None)?;
+        // a translated method of `Value` (`into_bool`, `try_as_number`, …): the receiver is its last argument
+        if recv.ty == LT::Value {
+            if let Some(sig) = self.callees.get(&name).cloned() {
+                if sig.self_only && sig.params.len() == args.len() {
+                    let mut pre = recv.pre;
+                    let mut terms = Vec::new();
+                    for (a, t) in args.iter().zip(sig.params.iter()) {
+                        let x = self.expr(a, Some(t))?;
+                        pre.extend(x.pre);
+                        terms.push(x.term);
+                    }
+                    terms.push(recv.term);
+                    let v = self.fresh("r");
+                    pre.push(Pre::Bind(v.clone(), format!("(Fns.{} {})", sig.lean, terms.join(" "))));
+                    return Ok(Tx { pre, term: v, ty: sig.ret });
+                }
+            }
+        }
         match (name.as_str(), args.len(), recv.ty.clone()) {
+            ("offset", 1, LT::I("isize")) => {
+                // `ptr.offset(k)` on the instruction pointer, kept as an offset into the code
+                let a = self.expr(args[0], Some(&LT::I("isize")))?;
+                let mut pre = recv.pre;
+                pre.extend(a.pre);
+                Ok(Tx { pre, term: format!("({} + {})", recv.term, a.term), ty: LT::I("isize") })
+            }
             ("len", 0, LT::List(_)) => Ok(Tx { pre: recv.pre, term: format!("(Rs.len {})", recv.term), ty: LT::I("usize") }),
             ("is_none", 0, LT::Opt(_)) => Ok(Tx { pre: recv.pre, term: format!("({}).isNone", recv.term), ty: LT::Bool }),
             ("is_some", 0, LT::Opt(_)) => Ok(Tx { pre: recv.pre, term: format!("({}).isSome", recv.term), ty: LT::Bool }),
@@ -690,5 +749,49 @@ fn want_arith<'x>(op: &BinOp, want: Option<&'x LT>) -> Option<&'x LT> {
     match op {
         BinOp::Eq(_) | BinOp::Ne(_) | BinOp::Lt(_) | BinOp::Le(_) | BinOp::Gt(_) | BinOp::Ge(_) => None,
         _ => want,
+    }
+}
+
+impl<'a> Cx<'a> {
+    /// Methods of `Vm` given a fixed meaning over the abstract interpreter state (`Rs.Vm` in RustSem.lean).
+    fn vm_intrinsic(&mut self, name: &str, args: &[&Expr]) -> R<Option<Tx>> {
+        let v = self.fresh("t");
+        Ok(Some(match (name, args.len()) {
+            ("pop", 0) => Tx { pre: vec![Pre::BindVm(v.clone(), "(Rs.Vm.pop vm_)".into())], term: v, ty: LT::Value },
+            ("read_byte", 0) => Tx { pre: vec![Pre::BindVm(v.clone(), "(Rs.Vm.readByte vm_)".into())], term: v, ty: LT::BV(8) },
+            ("read_short", 0) => Tx { pre: vec![Pre::BindVm(v.clone(), "(Rs.Vm.readShort vm_)".into())], term: v, ty: LT::BV(16) },
+            ("peek", 1) => {
+                let d = self.expr(args[0], Some(&LT::I("usize")))?;
+                let mut pre = d.pre;
+                pre.push(Pre::Bind(v.clone(), format!("(Rs.Vm.peek vm_ {})", d.term)));
+                Tx { pre, term: v, ty: LT::Value }
+            }
+            ("try_handle_error", 1) => {
+                let e = self.expr(args[0], Some(&LT::ErrT))?;
+                if e.ty != LT::ErrT {
+                    return self.un("try_handle_error of something that is not an Error built by error!");
+                }
+                let mut pre = e.pre;
+                pre.push(Pre::BindVm(v.clone(), format!("(Rs.Vm.raise vm_ {})", e.term)));
+                Tx { pre, term: v, ty: LT::Res(Box::new(LT::Unit), Box::new(LT::ErrT)) }
+            }
+            _ => {
+                // another translated method of Vm
+                if let Some(sig) = self.callees.get(name).cloned() {
+                    if sig.lean.starts_with("vm_") && sig.params.len() == args.len() {
+                        let mut pre = Vec::new();
+                        let mut terms = Vec::new();
+                        for (a, t) in args.iter().zip(sig.params.iter()) {
+                            let x = self.expr(a, Some(t))?;
+                            pre.extend(x.pre);
+                            terms.push(x.term);
+                        }
+                        pre.push(Pre::BindVm(v.clone(), format!("(Fns.{} {} vm_)", sig.lean, terms.join(" "))));
+                        return Ok(Some(Tx { pre, term: v, ty: sig.ret }));
+                    }
+                }
+                return Ok(None);
+            }
+        }))
     }
 }
